@@ -738,8 +738,20 @@ def _rename_comprehensions(e: ast.AST) -> ast.AST:
 
 
 # --------------------------------------------------------------------------------- variable families
+_FAM_CACHE: Dict[tuple, Dict[str, Effect]] = {}
+
+
 def var_families(prog: Program, cls: ClassInfo) -> Dict[str, Effect]:
     """self.<attr> assigned from self.solver.add_variables(...) anywhere in the MRO of cls."""
+    ck = (id(prog), cls.module.name, cls.name)
+    if ck in _FAM_CACHE:
+        return _FAM_CACHE[ck]
+    fams = _var_families(prog, cls)
+    _FAM_CACHE[ck] = fams
+    return fams
+
+
+def _var_families(prog: Program, cls: ClassInfo) -> Dict[str, Effect]:
     fams: Dict[str, Effect] = {}
     for c in prog.mro(cls):
         for f in c.methods.values():
